@@ -1,41 +1,19 @@
+mod check;
 mod disk;
 mod exec;
+mod gen_;
 mod model;
+mod oracle;
 mod rng;
+mod runner;
 mod scenario;
+mod shrink;
 mod sim;
+mod twin;
 mod world;
 
-use scenario::*;
-
 fn main() {
-  exec::install_panic_hook();
-  let config = Config { commit_interval: 3, ..Config::default() };
-  let mut ex = exec::Exec::new(&config, 1);
-  let block = BlockSpec {
-    txs: vec![TxSpec {
-      inputs: vec![InSpec { sel: InputSel::Utxo(0), witness: WitnessSpec::None }],
-      outputs: vec![
-        OutSpec { weight: 3, exact: None, script: ScriptSpec::P2tr(1) },
-        OutSpec { weight: 1, exact: None, script: ScriptSpec::P2wpkh(2) },
-      ],
-      fee_permille: 10,
-      fee_exact: None,
-      runestone: None,
-      runestone_at: 0,
-      runestone_value: 0,
-    }],
-    coinbase: CoinbaseSpec { outputs: vec![], claim: Claim::Full, duplicate_of: None },
-  };
-  ex.mine(&vec![block.clone(); 8]);
-  let t = std::time::Instant::now();
-  let r = ex.update(&UpdateSpec { lag: 2, ..Default::default() });
-  println!("update: {:?} in {:?}", r.result, t.elapsed());
-  println!("outcome: {:?}", r.outcome);
-  let idx = ex.index();
-  println!("block count {:?}", idx.block_count());
-  let dump = idx.verif_dump().unwrap();
-  for (name, rows) in &dump { println!("{name}: {}", rows.len()); }
-  let sim = ex.finish();
-  sim.snapshot(|s| println!("probes {:?} trace {:x} len {}", s.probes, s.trace, s.trace_len));
+  let args: Vec<String> = std::env::args().collect();
+  let code = runner::main(&args[1..]);
+  std::process::exit(code);
 }
